@@ -58,7 +58,7 @@ def _violations(res, spec, obs, viols):
 
 def correspond(res):
     rng = random.Random(res.seed)
-    n_hist = 260 if res.tier == "quick" else 4000
+    n_hist = 260 if res.tier == "quick" else 2400
     cases = []
     for i in range(n_hist):
         mode = MODES[i % len(MODES)]
